@@ -53,8 +53,8 @@ PROPS["C06"] = {
     "units": ["sched", "graph", "run"],
     "probes": {"sched": ["work::Work::run", "work::BuildStates::want_file", "work::Work::ready_dependents"], "graph": ["graph::Graph::add_build"], "run": ["run::parse_args"]},
     "level": "proof",
-    "assumptions": SCHED_ASSUME + ["C06(a) PROVED under stated preconditions of Work::run: the `BUG: no work to do` panic is unreachable (panic! is a `requires false` obligation; no assume). The liveness invariant lv = (a Want step has a producer that is not Done) + (Ready steps are in the ready queue, Queued steps in a pool queue, the popped one excepted) + (wanted set closed under ordering inputs) is established by Work::new, kept by want_build/want_file/want_every_file/pop_ready/pop_queued/set/enqueue/ready_dependents and by graph changes of record_finished; at the panic point (no failure, nothing running, ready queue empty, no pool with capacity and a queued step, something pending) a Want step of minimal topological rank gives the contradiction",
-                    "Work::run preconditions NOT discharged by a verified caller (run::build's calls are behind the protocol stubs of unit run): -j >= 1 (proved for run::parse_args' result, unit run), the graph's ordering inputs are acyclic (the statement's 'for every acyclic graph'; want_file's cycle check is not connected to it), every step is listed among the dependents of its ordering inputs (deps_complete; Graph::add_build is proved to keep it in unit graph)",
+    "assumptions": SCHED_ASSUME + ["C06(a) PROVED under stated preconditions of Work::run: the `BUG: no work to do` panic is unreachable (panic! is a `requires false` obligation; no assume). The liveness invariant lv = (a Want step has a producer that is not Done) + (Ready steps are in the ready queue, Queued steps in a pool queue, the popped one excepted) + (wanted set closed under ordering inputs) + (the wanted part of the graph is acyclic: a topological numbering exists -- NOT assumed: want_build numbers a step above all others when it leaves Unknown, which happens only after the producers of its ordering inputs are wanted; a cycle is turned into an error by the stack check before that) is established by Work::new, kept by want_build/want_file/want_every_file/pop_ready/pop_queued/set/enqueue/ready_dependents and by graph changes of record_finished; at the panic point (no failure, nothing running, ready queue empty, no pool with capacity and a queued step, something pending) a Want step of minimal topological rank gives the contradiction",
+                    "Work::run preconditions NOT discharged by a verified caller (run::build's calls are behind the protocol stubs of unit run): -j >= 1 (proved for run::parse_args' result, unit run), every step is listed among the dependents of its ordering inputs (deps_complete; Graph::add_build is proved to keep it in unit graph)",
                     "'every wanted step ends up to date' is decided as: Ok(true) only when every wanted step is Done, and the loop cannot stall; that the trusted Runner::wait eventually returns (commands terminate) is assumed",
                     "cycle *reporting* text is dropped (R4); that a cycle yields Err is by the stack check, that no step of a cycle becomes Ready follows from inv1 but is not stated as a separate clause"],
 }
@@ -304,7 +304,7 @@ LEVEL_TEXT = {
     },
     "C06": {
         "text": "Unbounded proof (Verus) of termination and of the absence of the internal-error stall: every loop of the scheduler and the mutually recursive want_build/want_file carry a decreases measure (potential sum of 5-rank over all builds for Work::run and its inner loops; lexicographic (#Unknown builds, #files - stack depth, fn) for the recursion, using a pigeonhole lemma on the duplicate-free stack); validation edges start a fresh stack only after the build left Unknown. Readiness never waits for validation inputs (want_build's Ready decision is taken before they are visited).",
-        "note": "C06(a) -- the internal-error panic is unreachable -- is proved from a liveness invariant for acyclic graphs (preconditions of Work::run: -j >= 1, acyclic ordering inputs, dependents lists complete). Trusted: as C01; external commands terminate.",
+        "note": "C06(a) -- the internal-error panic is unreachable -- is proved from a liveness invariant that includes acyclicity of the wanted sub-graph (itself proved: want_build/want_file maintain a topological numbering); preconditions of Work::run left to callers: -j >= 1 (proved for parse_args' result), dependents lists complete (proved for Graph::add_build). Trusted: as C01; external commands terminate.",
         "design_ref": "DESIGN.md §6 C06",
     },
     "C14": {
